@@ -21,8 +21,10 @@
 (*   MergeKeyedOnCount   a request is absorbed when its prev_log_index       *)
 (*                       equals prev + NUMBER of entries merged so far and   *)
 (*                       the terms are equal; prev_log_term, the real index  *)
-(*                       of the last merged entry and the legality of the    *)
-(*                       first request are not looked at.                    *)
+(*                       of the last merged entry are not looked at.         *)
+(*   MergeWithoutLegalityCheck  requests are merged before the first one is  *)
+(*                       checked against the log: when it is rejected, the   *)
+(*                       absorbed ones are rejected with it.                 *)
 (*   MergeIgnoresCommitOrder  the merged request carries the maximum of the  *)
 (*                       leader commit indexes even when a later request      *)
 (*                       carries a lower one (out-of-order queue).            *)
@@ -51,7 +53,8 @@ CONSTANTS
   MinQ, MaxQ,   \* queue lengths
   Lcs           \* <<lo, hi>> leader commit values
 
-MergeDevs == {"MergeKeyedOnCount", "MergeOneAckForAll", "MergeIgnoresCommitOrder"}
+MergeDevSeq == <<"MergeKeyedOnCount", "MergeWithoutLegalityCheck", "MergeIgnoresCommitOrder", "MergeOneAckForAll">>
+MergeDevs == {MergeDevSeq[j] : j \in 1..Len(MergeDevSeq)}
 
 (***************************************************************************)
 (* Requests                                                                 *)
@@ -84,10 +87,21 @@ Follower(ts, c) == [role |-> "F", term |-> FTerm, vote |-> NoVote, log |-> FLog(
 (***************************************************************************)
 (* The two runs                                                             *)
 (***************************************************************************)
+\* The log store is keyed by index: an entry written twice is kept once (last write wins) and entries are
+\* read back in index order.  DECore's FilterAppend appends sequences, which is the same thing for requests
+\* with strictly increasing indexes; a merged request can repeat or reorder indexes, hence the normalisation.
+RECURSIVE SortSet(_)
+SortSet(S) == IF S = {} THEN <<>> ELSE LET m == CHOOSE x \in S : \A y \in S : x <= y IN <<m>> \o SortSet(S \ {m})
+NormLog(log) ==
+  IF \A j \in 1..Len(log) - 1 : log[j].i < log[j + 1].i THEN log ELSE
+  LET ix == SortSet({log[j].i : j \in 1..Len(log)})
+  IN [k \in 1..Len(ix) |-> log[CHOOSE j \in 1..Len(log) : log[j].i = ix[k] /\ \A o \in 1..Len(log) : log[o].i = ix[k] => o <= j]]
+F_State(s, a) == LET n == HandleAE_State(s, a) IN [n EXCEPT !.log = NormLog(@)]
+
 RECURSIVE RunSeq(_, _)
 RunSeq(s, q) ==
   IF q = <<>> THEN [s |-> s, acks |-> <<>>]
-  ELSE LET r == RunSeq(HandleAE_State(s, Head(q)), Tail(q))
+  ELSE LET r == RunSeq(F_State(s, Head(q)), Tail(q))
        IN [s |-> r.s, acks |-> <<HandleAE_Resp(s, Head(q))>> \o r.acks]
 
 ContigReq(a) == \A j \in 1..Len(a.ents) : a.ents[j].i = a.prev + j
@@ -98,7 +112,7 @@ Absorbable(s, m, np, x, mm, MD) ==
   /\ Len(m.ents) + Len(x.ents) <= mm
   /\ "MergeKeyedOnCount" \notin MD =>
        /\ ContigReq(m) /\ ContigReq(x) /\ x.pt = LastT(m) /\ x.from = m.from
-       /\ s.term <= m.t /\ AELegal(s, m)
+  /\ "MergeWithoutLegalityCheck" \notin MD => s.term <= m.t /\ AELegal(s, m)
   /\ "MergeIgnoresCommitOrder" \notin MD => x.lc >= m.lc
 
 RECURSIVE Absorb(_, _, _, _, _, _, _)
@@ -114,7 +128,7 @@ RunMerged(s, q, mm, MD) ==
   ELSE LET g    == Absorb(s, Head(q), Head(q).prev + Len(Head(q).ents), Tail(q), mm, 1, MD)
            resp == HandleAE_Resp(s, g.req)
            own  == RunSeq(s, SubSeq(q, 1, g.n)).acks
-           r    == RunMerged(HandleAE_State(s, g.req), SubSeq(q, g.n + 1, Len(q)), mm, MD)
+           r    == RunMerged(F_State(s, g.req), SubSeq(q, g.n + 1, Len(q)), mm, MD)
        IN [s |-> r.s,
            acks |-> (IF "MergeOneAckForAll" \in MD THEN [j \in 1..g.n |-> resp] ELSE own) \o r.acks,
            groups |-> <<g.n>> \o r.groups]
@@ -142,7 +156,9 @@ MrgRepaired == RunMerged(S0, Q, c.mm, {})   \* repaired merge step
 
 \* the property, for the merge step as implemented (fails: see the known findings) ...
 MergeTransparent == c.st = "case" => Outcome(Mrg) = Outcome(SeqRun)
-\* ... and for the repaired merge step: must hold (INVARIANT of every run, whatever the follower deviations)
+\* ... and for the repaired merge step on the repaired follower (Dev = {}): must hold on every case.
+\* (With the as-implemented follower even a contiguity-checked merge is not transparent: "commit from the
+\* whole log" + "prev = 0 resets the log" make the commit index depend on how heartbeats are grouped.)
 RepairedMergeTransparent == c.st = "case" => Outcome(MrgRepaired) = Outcome(SeqRun)
 
 (***************************************************************************)
@@ -153,12 +169,19 @@ JoinS(seq, sep) == IF seq = <<>> THEN "-" ELSE
 N(x) == ToString(x)
 LogS(log) == JoinS([j \in 1..Len(log) |-> N(log[j].i) \o ":" \o N(log[j].t)], ",")
 ReqS(a) == N(a.t) \o "/" \o N(a.prev) \o "/" \o N(a.pt) \o "/" \o N(a.lc) \o "/" \o LogS(a.ents)
-AckS(r) == IF r.kind = "ok" THEN "ok." \o N(r.mi) \o "." \o N(r.mt)
-           ELSE IF r.kind = "conflict" THEN "conflict." \o N(r.ct) \o "." \o N(r.ci)
-           ELSE "higher." \o N(r.t)
+AckS(r) == (IF r.kind = "ok" THEN "ok." \o N(r.mi) \o "." \o N(r.mt)
+            ELSE IF r.kind = "conflict" THEN "conflict." \o N(r.ct) \o "." \o N(r.ci)
+            ELSE "higher." \o N(r.mt)) \o "@" \o N(r.t)
+\* attribution of a difference: the first deviation (in the order of MergeDevSeq: merge conditions first, the
+\* response fan-out last) whose repair alone restores the one-at-a-time outcome; none = it takes several (or a
+\* follower deviation is involved)
+Attr == IF Outcome(Mrg) = Outcome(SeqRun) THEN <<>>
+        ELSE LET R == SelectSeq(MergeDevSeq, LAMBDA d : Outcome(RunMerged(S0, Q, c.mm, MergeDevs \ {d})) = Outcome(SeqRun))
+             IN IF R = <<>> THEN <<>> ELSE <<R[1]>>
 OutS(r) == LogS(r.s.log) \o " " \o N(r.s.commit) \o " " \o JoinS([j \in 1..Len(r.acks) |-> AckS(r.acks[j])], ";")
 Line == "CASE " \o LogS(S0.log) \o " " \o N(S0.commit) \o " " \o N(S0.term) \o " " \o N(c.mm) \o " "
         \o JoinS([j \in 1..Len(Q) |-> ReqS(Q[j])], ";")
         \o " S " \o OutS(SeqRun) \o " M " \o OutS(Mrg) \o " G " \o JoinS([j \in 1..Len(Mrg.groups) |-> N(Mrg.groups[j])], ",")
+        \o " A " \o JoinS(Attr, ",")
 Emit == c.st = "case" => PrintT(Line)
 =============================================================================
